@@ -29,8 +29,8 @@ import (
 type Describer struct {
 	p        *Prog
 	memo     map[memoKey]string
-	inCall   int  // nesting depth inside call arguments
-	full     bool // render nested calls in full (used to fingerprint elided calls)
+	inCall   int    // nesting depth inside call arguments
+	full     bool   // render nested calls in full (used to fingerprint elided calls)
 	under    *Reach // when set, φ-nodes only merge the edges that are reachable in this walk
 	busy     map[ssa.Value]bool
 	allocIdx map[*ssa.Alloc]int
